@@ -170,7 +170,7 @@ func init() {
 	core.Register(&core.Prop{
 		ID:    "C18",
 		Level: "exploration",
-		Rule: "random package trees (packages nested to depth 3, value / function / hash members with nested hashes, names with upper-case, lower-case, underscore and non-ASCII first runes), reached through the package, an alias of it, an alias of an inner package and a hash holding the package. Every member path is accessed from outside by a read route (operand of a builtin, right-hand side of def and let, argument, infix operand, call through the path for functions) and every value member directly under a package by the write routes (set p.x v) and {p.x = v}, verified through a capitalised getter defined inside the package; every value path is also handed as the caller's argument to a function defined inside a package ((P.Sub.Ident9 P.Sub.x)); private paths, spelled the way outside code and the way inside code would, are hidden in an array, a list or a lazy argument handed to the package's own functions; the private members of an enclosing package are named through each nested package that does not define them (P.Inner.secret: read, def, set, infix assignment, call, hash descent); generic accessors (hget in all its spellings, hpair) handed the package value itself must never return a private member's canary; inside code (public getter/setter) must keep full access to private members when called from outside. " +
+		Rule: "random package trees (packages nested to depth 3, value / function / hash members with nested hashes, names with upper-case, lower-case, underscore and non-ASCII first runes), reached through the package, an alias of it, an alias of an inner package and a hash holding the package. Every member path is accessed from outside by a read route (operand of a builtin, right-hand side of def and let, argument, infix operand, call through the path for functions) and every value member directly under a package by the write routes (set p.x v) and {p.x = v}, verified through a capitalised getter defined inside the package; every lower-case member that is not a plain value (nested package, function, hash) is assigned from outside ((set p.low v), {p.low = v}, another package as the value) and must refuse, the nested package's own getter still giving its canary; every value path is also handed as the caller's argument to a function defined inside a package ((P.Sub.Ident9 P.Sub.x)); private paths, spelled the way outside code and the way inside code would, are hidden in an array, a list or a lazy argument handed to the package's own functions; the private members of an enclosing package are named through each nested package that does not define them (P.Inner.secret: read, def, set, infix assignment, call, hash descent); generic accessors (hget in all its spellings, hpair) handed the package value itself must never return a private member's canary; inside code (public getter/setter) must keep full access to private members when called from outside. " +
 			"Oracle: visibility model over the tree (capitalisation decides at the last hop and before entering a hash; nested packages traversable under any case; keys inside a reachable hash are not members): allowed => the member's unique canary integer is returned / the write takes effect; forbidden => an error, the canary never appears and the value is unchanged. non-trivial = distinct tree with >=1 nested package, >=1 hash member and both an allowed and a forbidden path",
 		Assumptions: []string{
 			"dot-symbols self-evaluate until used as an operand, so a path is always observed through a consuming route",
@@ -480,6 +480,64 @@ func c18Run(c *core.Ctx, i int) *core.Result {
 		if so.Err != nil || OutStr(gv2) != "4242" {
 			res.Violate("inside-code-lost-access", fmt.Sprintf("the package's own public setter %s and getter %s must work from outside; setter: %s, getter: %s", setter, getter, OutStr(so), OutStr(gv2)), setup+setter)
 			return res
+		}
+	}
+	// writes whose last hop is a lower-case member that is not a plain value (a nested package, a
+	// function, a hash): traversal through a nested package is allowed under any case, replacing it is not
+	type c18nv struct {
+		parts []string
+		node  *c18node
+	}
+	var nvs []c18nv
+	var walkNV func(n *c18node, prefix []string)
+	walkNV = func(n *c18node, prefix []string) {
+		for _, k := range n.ord {
+			c := n.kids[k]
+			pp := append(append([]string{}, prefix...), k)
+			if c.kind != "val" && !c18Upper(k) {
+				nvs = append(nvs, c18nv{pp, c})
+			}
+			if c.kind == "pkg" {
+				walkNV(c, pp)
+			}
+		}
+	}
+	walkNV(tree, nil)
+	for j, nv := range nvs {
+		if j >= 4 {
+			break
+		}
+		root := roots[g.r.N(len(roots))]
+		dot := root + "." + strings.Join(nv.parts, ".")
+		w := NewSutRun(true)
+		w.Eval(setup, 0)
+		wt := fmt.Sprintf([]string{"{%s = 999}", "(set %s 999)", "(set %s P)"}[g.r.N(3)], dot)
+		o := w.Eval(wt+"\n", 0)
+		res.Evals++
+		res.Ev("writes_forbidden", 1)
+		res.Ev("writes_forbidden_nonvalue_member_"+nv.node.kind, 1)
+		if o.Panic != "" {
+			res.Violate("escaped-panic:"+o.Site, o.Panic, setup+wt)
+			return res
+		}
+		if o.Err == nil {
+			res.Violate("private-member-written:kind-"+nv.node.kind, fmt.Sprintf("%s replaces a private (lower-case) %s member from outside and must fail; write: %s", wt, nv.node.kind, OutStr(o)), setup+wt)
+			return res
+		}
+		if nv.node.kind == "pkg" {
+			// the nested package is still the one the package defined: its inside getter gives the member's canary
+			for _, k := range nv.node.ord {
+				if c := nv.node.kids[k]; c.kind == "val" {
+					getter := "(" + "P." + strings.Join(append(append([]string{}, nv.parts...), "Get_"+c18Ident(k)), ".") + ")"
+					gv := w.Eval(getter+"\n", 0)
+					res.Evals++
+					if OutStr(gv) != strconv.Itoa(c.val) {
+						res.Violate("private-member-written:kind-pkg", fmt.Sprintf("after the refused write %s the getter %s must still give %d, got %s", wt, getter, c.val, OutStr(gv)), setup+wt)
+						return res
+					}
+					break
+				}
+			}
 		}
 	}
 	return res
